@@ -616,4 +616,49 @@ theorem C20_prefix_count (m t κ : ℕ) :
     unwiped (proveBufs false true m t κ) = t * (3 + 2 * κ) ∧ unwiped (recoverBufs false t κ) = t * (3 + 2 * κ) :=
   LifecycleThm.prefix_leak_count m t κ
 
+/-! ## C19 Wire compatibility (translation validation)
+
+The layouts are constants of the model, stated literally so that any change to the model is a visible diff here.
+The tie to the code is behavioural: the hash-boundary inputs of the real code equal the model's (C04, C11, C13
+ties); recorded vectors of the pinned release still verify; a reference prover and verifier whose protocol logic is
+this model (the harness only supplies merlin, Blake2b and Ristretto arithmetic) interoperate with the library over
+Ristretto byte for byte. -/
+
+open Model.Transcript in
+/-- transcript labels and order of the statement block -/
+theorem C19_layout_statement (x : Pub) :
+    stmtEvents x =
+      [Event.append "dom-sep" "Bulletproofs+ Range Proof".toUTF8.toList, Event.append "H" x.hb]
+      ++ (x.gb.map (Event.append "G")
+      ++ ([Event.append "N" (le64 x.n), Event.append "T" (le64 x.t), Event.append "M" (le64 x.m)]
+      ++ (x.cs.map (Event.append "Ci")
+      ++ x.ps.map (fun p => Event.append "vi - minimum_value" (le64 p))))) := rfl
+
+open Model.Transcript in
+/-- labels and order of the proof messages and challenges, and of the verifier's weight path -/
+theorem C19_layout_messages (ctx : List Event) (x : Pub) (A l r a1 b r1 s1 d : Bytes) :
+    fullEvents ctx x A [(l, r)] a1 b r1 s1 [d] =
+      ctx ++ (stmtEvents x ++ [Event.append "A" A]) ++
+        ([Event.challenge "y" 64, Event.challenge "z" 64] ++
+          ([Event.append "L" l, Event.append "R" r, Event.challenge "e" 64] ++ [Event.append "A1" a1, Event.append "B" b])) ++
+        [Event.challenge "e" 64, Event.append "r1" r1, Event.append "s1" s1, Event.append "d1" d] := rfl
+
+open Model.Nonce in
+/-- seed-derived nonce key: `0 ‖ seed ‖ 'j' ‖ LE32 j ‖ 'k' ‖ LE32 k` (here j = 1, k = 258) -/
+theorem C19_layout_nonce_key (seed : Model.Transcript.Bytes) :
+    nonceKey seed (some 1) (some 258) = 0 :: (seed ++ [106, 1, 0, 0, 0, 107, 2, 1, 0, 0]) := by
+  simp [nonceKey, le32]
+
+open Model.Gens in
+/-- vector-generator chain label: `"GeneratorsChain" ‖ kind ‖ LE32 party` (here H, party 258), block offset 64·index -/
+theorem C19_layout_chain : chainLabel .H 258 = chainPrefix ++ [72, 2, 1, 0, 0] ∧ chainOffset 3 = 192 := by
+  constructor
+  · simp [chainLabel, le32, Kind.byte]
+  · rfl
+
+open Model.Codec in
+/-- proof bytes: degree byte, d1, A, A1, B, r1, s1, interleaved L/R -/
+theorem C19_layout_proof (p : Proof) :
+    encode p = UInt8.ofNat p.tag :: (encodeScalars p.d1 ++ (p.a ++ (p.a1 ++ (p.b ++ (leBytes 32 p.r1 ++ (leBytes 32 p.s1 ++ encodePairs p.li p.ri)))))) := rfl
+
 end Bpp
